@@ -1,8 +1,1615 @@
-//! C07 – not implemented yet.
-use mvlib::Ctx;
-use serde_json::Value;
+//! C07 – loops, conditionals, macros, constants, scopes and imports mean their expansion.
+//!
+//! Space: construct nests of depth <= d (quick 2, thorough 3). A nest is a sequence of *levels*
+//! (outermost first) and a *leaf*; `build` turns it into the program P (main.asm plus one
+//! imported file per import level), `Expander` turns the AST of P into expand(P) by hand:
+//!
+//! * `.loop n { B }`      -> n copies `{ B[index := i] }`
+//! * `.if c { A } else { B }` -> the statements of the selected branch, spliced in place
+//! * `m(a, b)`            -> `{ .const p = (a) .const q = (b) body }` (definition removed)
+//! * use of a user `.const` -> `(value)`
+//! * `{ }`, `l: { }`      -> unchanged
+//! * `.import … from "f" { block }` -> `impN: { block, statements of f }` followed by
+//!   `.const alias = impN.name` for every imported name (`*`: every top-level label / constant
+//!   of the scope; `* as ns`: uses `ns.x` are rewritten to `impN.x`)
+//!
+//! Oracle: both assemble => identical segments; P rejected while expand(P) assembles =>
+//! violation; expand(P) rejected alone => counted (the hand expansion may be stricter); differing
+//! bytes are excused only when both results are valid fixed points (certificate checker).
+//! Failing nests are reduced against the table of all failing nests (drop a level, simpler
+//! variant of a level, simpler leaf) and the signature is taken from the reduced nest.
 
-pub fn run(_ctx: &Ctx, _replay: Option<&Value>) -> i32 {
-    eprintln!("C07: engine not implemented yet");
-    2
+use crate::cert::certify;
+use crate::probe::{self, Built, Opts};
+use crate::util::hex_bytes;
+use mvlib::grammar::*;
+use mvlib::isa::{Form, Isa};
+use mvlib::{fnv_str, Ctx, Finding};
+use rayon::prelude::*;
+use serde_json::{json, Value};
+use std::collections::{BTreeMap, HashMap, HashSet};
+use std::sync::{Arc, Mutex};
+
+// ------------------------------------------------------------------------------------------
+// nests
+// ------------------------------------------------------------------------------------------
+
+#[derive(Clone, Copy, PartialEq, Eq, Hash, Debug, PartialOrd, Ord)]
+enum Cond {
+    Lit1,
+    Lit0,
+    DefX,
+    DefU,
+    C1Eq2,
+}
+
+#[derive(Clone, Copy, PartialEq, Eq, Hash, Debug, PartialOrd, Ord)]
+enum IfShape {
+    /// `.if c { child }`
+    Then,
+    /// `.if c { child } else { filler }`
+    ThenElse,
+    /// `.if c { filler } else { child }`
+    InElse,
+}
+
+#[derive(Clone, Copy, PartialEq, Eq, Hash, Debug, PartialOrd, Ord)]
+enum Place {
+    /// definition at the top of main.asm, before the nest
+    Top,
+    /// definition directly before the (first) invocation, in the same statement list
+    Local,
+    /// definition at the end of main.asm (invocation precedes definition)
+    After,
+}
+
+#[derive(Clone, Copy, PartialEq, Eq, Hash, Debug, PartialOrd, Ord)]
+enum CVal {
+    Two,
+    OnePlusOne,
+}
+
+#[derive(Clone, Copy, PartialEq, Eq, Hash, Debug, PartialOrd, Ord)]
+enum Imp {
+    Star,
+    Name,
+    Alias,
+    Ns,
+    Multi,
+    Twice,
+    TwiceNs,
+    /// by name, the name being a block label (`fs: { … }`) of the imported file
+    Scope,
+}
+
+#[derive(Clone, Copy, PartialEq, Eq, Hash, Debug, PartialOrd, Ord)]
+enum Level {
+    Loop(u8),
+    If(Cond, IfShape),
+    Macro { place: Place, calls: u8, params: u8 },
+    Const { after: bool, val: CVal },
+    Braces { labelled: bool },
+    Import { imp: Imp, block: bool },
+}
+
+#[derive(Clone, Copy, PartialEq, Eq, Hash, Debug, PartialOrd, Ord)]
+enum VK {
+    Index,
+    Param,
+    Const,
+}
+
+#[derive(Clone, Copy, PartialEq, Eq, Hash, Debug, PartialOrd, Ord)]
+enum Leaf {
+    Nop,
+    JmpOuter,
+    JmpFwd,
+    InnerLabel,
+    InnerMinus,
+    Lda(VK),
+    Byte(VK),
+}
+
+#[derive(Clone, PartialEq, Eq, Hash, Debug)]
+struct Nest {
+    levels: Vec<Level>,
+    leaf: Leaf,
+}
+
+impl Level {
+    fn kind(&self) -> u8 {
+        match self {
+            Level::Loop(_) => 0,
+            Level::If(..) => 1,
+            Level::Macro { .. } => 2,
+            Level::Const { .. } => 3,
+            Level::Braces { .. } => 4,
+            Level::Import { .. } => 5,
+        }
+    }
+
+    fn kind_name(&self) -> &'static str {
+        match self {
+            Level::Loop(_) => "loop",
+            Level::If(..) => "if",
+            Level::Macro { .. } => "macro",
+            Level::Const { .. } => "const",
+            Level::Braces { .. } => "braces",
+            Level::Import { .. } => "import",
+        }
+    }
+
+    fn name(&self) -> String {
+        match self {
+            Level::Loop(n) => format!("loop{}", n),
+            Level::If(c, s) => {
+                let c = match c {
+                    Cond::Lit1 => "1",
+                    Cond::Lit0 => "0",
+                    Cond::DefX => "defined-x",
+                    Cond::DefU => "defined-u",
+                    Cond::C1Eq2 => "c1==2",
+                };
+                match s {
+                    IfShape::Then => format!("if({})", c),
+                    IfShape::ThenElse => format!("if({},else)", c),
+                    IfShape::InElse => format!("if({},in-else)", c),
+                }
+            }
+            Level::Macro { place, calls, params } => format!(
+                "macro({}p,{}x,{})",
+                params,
+                calls,
+                match place {
+                    Place::Top => "top",
+                    Place::Local => "local",
+                    Place::After => "defined-after",
+                }
+            ),
+            Level::Const { after, val } => format!(
+                "const({},{})",
+                match val {
+                    CVal::Two => "2",
+                    CVal::OnePlusOne => "1+1",
+                },
+                if *after { "after-use" } else { "before-use" }
+            ),
+            Level::Braces { labelled } => if *labelled { "lbraces" } else { "braces" }.to_string(),
+            Level::Import { imp, block } => format!(
+                "import({}{})",
+                match imp {
+                    Imp::Star => "*",
+                    Imp::Name => "name",
+                    Imp::Alias => "name-as",
+                    Imp::Ns => "*as",
+                    Imp::Multi => "name,name-as",
+                    Imp::Twice => "twice-name-as",
+                    Imp::TwiceNs => "twice-*as",
+                    Imp::Scope => "block-label-name",
+                },
+                if *block { ",block" } else { "" }
+            ),
+        }
+    }
+}
+
+impl Leaf {
+    fn name(&self) -> &'static str {
+        match self {
+            Leaf::Nop => "nop",
+            Leaf::JmpOuter => "jmp-outer",
+            Leaf::JmpFwd => "jmp-fwd",
+            Leaf::InnerLabel => "inner-label",
+            Leaf::InnerMinus => "inner-minus",
+            Leaf::Lda(VK::Index) => "lda#index",
+            Leaf::Lda(VK::Param) => "lda#param",
+            Leaf::Lda(VK::Const) => "lda#const",
+            Leaf::Byte(VK::Index) => "byte-index+1",
+            Leaf::Byte(VK::Param) => "byte-param+1",
+            Leaf::Byte(VK::Const) => "byte-const+1",
+        }
+    }
+}
+
+/// All level variants; within a kind the simpler variant comes first (used by the reduction).
+fn all_levels() -> Vec<Level> {
+    let mut v = vec![];
+    for n in 0..=3u8 {
+        v.push(Level::Loop(n));
+    }
+    for c in [Cond::Lit1, Cond::Lit0, Cond::DefX, Cond::DefU, Cond::C1Eq2] {
+        for s in [IfShape::Then, IfShape::ThenElse, IfShape::InElse] {
+            v.push(Level::If(c, s));
+        }
+    }
+    for place in [Place::Top, Place::Local, Place::After] {
+        for calls in 1..=2u8 {
+            for params in 0..=2u8 {
+                v.push(Level::Macro { place, calls, params });
+            }
+        }
+    }
+    for after in [false, true] {
+        for val in [CVal::Two, CVal::OnePlusOne] {
+            v.push(Level::Const { after, val });
+        }
+    }
+    v.push(Level::Braces { labelled: false });
+    v.push(Level::Braces { labelled: true });
+    for imp in [
+        Imp::Star,
+        Imp::Name,
+        Imp::Alias,
+        Imp::Ns,
+        Imp::Multi,
+        Imp::Twice,
+        Imp::TwiceNs,
+        Imp::Scope,
+    ] {
+        for block in [false, true] {
+            v.push(Level::Import { imp, block });
+        }
+    }
+    v
+}
+
+/// One representative per construct kind; at depth 3 (thorough tier) at least one of the three
+/// levels is a representative, the other two range over all variants.
+fn is_base(l: &Level) -> bool {
+    matches!(
+        l,
+        Level::Loop(2)
+            | Level::If(Cond::Lit1, IfShape::Then)
+            | Level::Macro { place: Place::Top, calls: 1, params: 1 }
+            | Level::Const { after: false, val: CVal::Two }
+            | Level::Braces { labelled: false }
+            | Level::Import { imp: Imp::Star, block: false }
+    )
+}
+
+const LEAVES: [Leaf; 11] = [
+    Leaf::Nop,
+    Leaf::JmpOuter,
+    Leaf::JmpFwd,
+    Leaf::InnerLabel,
+    Leaf::InnerMinus,
+    Leaf::Lda(VK::Index),
+    Leaf::Byte(VK::Index),
+    Leaf::Lda(VK::Param),
+    Leaf::Byte(VK::Param),
+    Leaf::Lda(VK::Const),
+    Leaf::Byte(VK::Const),
+];
+
+/// Constructs whose by-hand meaning the property statement does not fix are kept out.
+fn levels_valid(levels: &[Level]) -> bool {
+    for (i, l) in levels.iter().enumerate() {
+        match l {
+            // a macro defined inside a macro body
+            Level::Macro { place: Place::Local, .. } => {
+                if levels[..i].iter().any(|x| matches!(x, Level::Macro { .. })) {
+                    return false;
+                }
+            }
+            // a label directly in a loop body (`.if` and `.const` do not open a scope)
+            Level::Braces { labelled: true } => {
+                let mut j = i;
+                while j > 0 {
+                    j -= 1;
+                    match levels[j] {
+                        Level::If(..) | Level::Const { .. } => continue,
+                        Level::Loop(_) => return false,
+                        _ => break,
+                    }
+                }
+            }
+            _ => {}
+        }
+    }
+    true
+}
+
+fn leaf_valid(levels: &[Level], leaf: Leaf) -> bool {
+    let vk = match leaf {
+        Leaf::Lda(v) | Leaf::Byte(v) => v,
+        _ => return true,
+    };
+    match vk {
+        VK::Index => levels.iter().any(|l| matches!(l, Level::Loop(_))),
+        VK::Param => levels.iter().any(|l| matches!(l, Level::Macro { params, .. } if *params >= 1)),
+        VK::Const => levels.iter().any(|l| matches!(l, Level::Const { .. })),
+    }
+}
+
+impl Nest {
+    fn valid(&self) -> bool {
+        levels_valid(&self.levels) && leaf_valid(&self.levels, self.leaf)
+    }
+
+    fn describe(&self) -> String {
+        let mut s = self.levels.iter().map(|l| l.name()).collect::<Vec<_>>().join("/");
+        s.push(':');
+        s.push_str(self.leaf.name());
+        s
+    }
+
+    fn sig_path(&self) -> String {
+        match self.levels.len() {
+            0 => "-/-".to_string(),
+            1 => format!("{}/-", self.levels[0].name()),
+            _ => self.levels.iter().map(|l| l.name()).collect::<Vec<_>>().join("/"),
+        }
+    }
+}
+
+// ------------------------------------------------------------------------------------------
+// nest -> program P
+// ------------------------------------------------------------------------------------------
+
+struct Prog {
+    main: Vec<Stmt>,
+    /// imported files, name -> statements
+    files: BTreeMap<String, Vec<Stmt>>,
+}
+
+struct Builder<'n> {
+    nest: &'n Nest,
+    top: Vec<Stmt>,
+    after: Vec<Stmt>,
+    files: BTreeMap<String, Vec<Stmt>>,
+}
+
+impl<'n> Builder<'n> {
+    fn value_name(&self, vk: VK) -> String {
+        match vk {
+            VK::Index => "index".to_string(),
+            VK::Param => {
+                let j = self
+                    .nest
+                    .levels
+                    .iter()
+                    .rposition(|l| matches!(l, Level::Macro { params, .. } if *params >= 1))
+                    .unwrap_or(0);
+                format!("p{}", j)
+            }
+            VK::Const => {
+                let j = self
+                    .nest
+                    .levels
+                    .iter()
+                    .rposition(|l| matches!(l, Level::Const { .. }))
+                    .unwrap_or(0);
+                format!("k{}", j)
+            }
+        }
+    }
+
+    fn leaf(&self) -> Vec<Stmt> {
+        match self.nest.leaf {
+            Leaf::Nop => vec![imp("nop")],
+            Leaf::JmpOuter => vec![ins("jmp", Form::Plain, id("outer"))],
+            Leaf::JmpFwd => vec![ins("jmp", Form::Plain, id("fwd"))],
+            Leaf::InnerLabel => vec![Stmt::Braces(vec![
+                label("il"),
+                imp("dex"),
+                ins("bne", Form::Plain, id("il")),
+            ])],
+            Leaf::InnerMinus => vec![Stmt::Braces(vec![imp("dex"), ins("bne", Form::Plain, id("-"))])],
+            Leaf::Lda(vk) => vec![ins("lda", Form::Imm, id(&self.value_name(vk)))],
+            Leaf::Byte(vk) => vec![byte(vec![bin(id(&self.value_name(vk)), "+", num(1))])],
+        }
+    }
+
+    fn level(&mut self, i: usize) -> Vec<Stmt> {
+        if i == self.nest.levels.len() {
+            return self.leaf();
+        }
+        let child = self.level(i + 1);
+        let filler = byte(vec![hex(0xe0 + i as i64)]);
+        match self.nest.levels[i] {
+            Level::Loop(n) => vec![Stmt::Loop {
+                count: num(n as i64),
+                body: child,
+            }],
+            Level::If(c, shape) => {
+                let cond = match c {
+                    Cond::Lit1 => num(1),
+                    Cond::Lit0 => num(0),
+                    Cond::DefX => Expr::Call("defined".into(), vec![id("x")]),
+                    Cond::DefU => Expr::Call("defined".into(), vec![id("u")]),
+                    Cond::C1Eq2 => bin(id("c1"), "==", num(2)),
+                };
+                let (then, els) = match shape {
+                    IfShape::Then => (child, None),
+                    IfShape::ThenElse => (child, Some(vec![filler])),
+                    IfShape::InElse => (vec![filler], Some(child)),
+                };
+                vec![Stmt::If { cond, then, els }]
+            }
+            Level::Macro { place, calls, params } => {
+                let name = format!("m{}", i);
+                let pnames: Vec<String> = [format!("p{}", i), format!("q{}", i)][..params as usize].to_vec();
+                let mut body = child;
+                if params == 2 {
+                    body.push(byte(vec![id(&pnames[1])]));
+                }
+                let def = Stmt::MacroDef {
+                    name: name.clone(),
+                    params: pnames,
+                    body,
+                };
+                let args1 = [num(7), lit("$55")];
+                let args2 = [bin(num(2), "+", num(4)), lo("fwd")];
+                let mut out = vec![];
+                match place {
+                    Place::Top => self.top.push(def),
+                    Place::After => self.after.push(def),
+                    Place::Local => out.push(def),
+                }
+                out.push(Stmt::MacroCall {
+                    name: name.clone(),
+                    args: args1[..params as usize].to_vec(),
+                });
+                if calls == 2 {
+                    out.push(Stmt::MacroCall {
+                        name,
+                        args: args2[..params as usize].to_vec(),
+                    });
+                }
+                out
+            }
+            Level::Const { after, val } => {
+                let def = konst(
+                    &format!("k{}", i),
+                    match val {
+                        CVal::Two => num(2),
+                        CVal::OnePlusOne => bin(num(1), "+", num(1)),
+                    },
+                );
+                let mut out = vec![];
+                if !after {
+                    out.push(def.clone());
+                }
+                out.extend(child);
+                if after {
+                    out.push(def);
+                }
+                out
+            }
+            Level::Braces { labelled } => {
+                if labelled {
+                    vec![label_block(&format!("lb{}", i), child)]
+                } else {
+                    vec![Stmt::Braces(child)]
+                }
+            }
+            Level::Import { imp: kind, block } => {
+                let file = format!("f{}.asm", i);
+                let fl = format!("fl{}", i);
+                let fc = format!("fc{}", i);
+                let fe = format!("fe{}", i);
+                let fs = format!("fs{}", i);
+                let ad = format!("ad{}", i);
+                // the imported file
+                let mut fstmts = vec![
+                    label(&fl),
+                    ins("lda", Form::Imm, id(&fc)),
+                    konst(&fc, num(5)),
+                    Stmt::If {
+                        cond: Expr::Call("defined".into(), vec![id(&ad)]),
+                        then: vec![byte(vec![id(&ad)])],
+                        els: Some(vec![byte(vec![lit("$ee")])]),
+                    },
+                ];
+                // a block label whose body refers to a constant of its own file
+                fstmts.push(label_block(&fs, vec![ins("lda", Form::Imm, id(&fc))]));
+                fstmts.extend(child);
+                fstmts.push(label(&fe));
+                fstmts.push(imp("rts"));
+                self.files.insert(file.clone(), fstmts);
+                let blk = |v: i64| -> Option<Vec<Stmt>> {
+                    if block {
+                        Some(vec![konst(&ad, num(v))])
+                    } else {
+                        None
+                    }
+                };
+                let import = |args: ImportArgs, v: i64| Stmt::Import {
+                    args,
+                    file: file.clone(),
+                    block: blk(v),
+                };
+                let a = format!("a{}", i);
+                let b = format!("b{}", i);
+                let c = format!("cc{}", i);
+                let ns = format!("ns{}", i);
+                let ms = format!("ms{}", i);
+                // (import statements, names under which `fl` is visible, name under which `fc` is visible)
+                let (imports, fl_names, fc_name): (Vec<Stmt>, Vec<String>, Option<String>) = match kind {
+                    Imp::Star => (vec![import(ImportArgs::All(None), 3)], vec![fl.clone()], Some(fc.clone())),
+                    Imp::Name => (
+                        vec![import(ImportArgs::Specific(vec![(fl.clone(), None)]), 3)],
+                        vec![fl.clone()],
+                        None,
+                    ),
+                    Imp::Alias => (
+                        vec![import(ImportArgs::Specific(vec![(fl.clone(), Some(a.clone()))]), 3)],
+                        vec![a.clone()],
+                        None,
+                    ),
+                    Imp::Ns => (
+                        vec![import(ImportArgs::All(Some(ns.clone())), 3)],
+                        vec![format!("{}.{}", ns, fl)],
+                        Some(format!("{}.{}", ns, fc)),
+                    ),
+                    Imp::Multi => (
+                        vec![import(
+                            ImportArgs::Specific(vec![(fl.clone(), None), (fc.clone(), Some(c.clone()))]),
+                            3,
+                        )],
+                        vec![fl.clone()],
+                        Some(c.clone()),
+                    ),
+                    Imp::Twice => (
+                        vec![
+                            import(ImportArgs::Specific(vec![(fl.clone(), Some(a.clone()))]), 3),
+                            import(ImportArgs::Specific(vec![(fl.clone(), Some(b.clone()))]), 4),
+                        ],
+                        vec![a.clone(), b.clone()],
+                        None,
+                    ),
+                    Imp::Scope => (
+                        vec![import(ImportArgs::Specific(vec![(fs.clone(), None)]), 3)],
+                        vec![fs.clone()],
+                        None,
+                    ),
+                    Imp::TwiceNs => (
+                        vec![
+                            import(ImportArgs::All(Some(ns.clone())), 3),
+                            import(ImportArgs::All(Some(ms.clone())), 4),
+                        ],
+                        vec![format!("{}.{}", ns, fl), format!("{}.{}", ms, fl)],
+                        Some(format!("{}.{}", ms, fc)),
+                    ),
+                };
+                let mut out = vec![ins("jsr", Form::Plain, id(&fl_names[0]))];
+                out.extend(imports);
+                for n in &fl_names {
+                    out.push(ins("jsr", Form::Plain, id(n)));
+                }
+                if let Some(cn) = fc_name {
+                    out.push(ins("lda", Form::Imm, id(&cn)));
+                }
+                out
+            }
+        }
+    }
+}
+
+fn build(nest: &Nest) -> Prog {
+    let mut b = Builder {
+        nest,
+        top: vec![],
+        after: vec![],
+        files: BTreeMap::new(),
+    };
+    let body = b.level(0);
+    let mut main = vec![label("outer"), imp("nop"), konst("c1", num(2)), konst("x", num(1))];
+    main.extend(b.top);
+    main.extend(body);
+    main.push(label("fwd"));
+    main.push(imp("rts"));
+    main.extend(b.after);
+    Prog { main, files: b.files }
+}
+
+// ------------------------------------------------------------------------------------------
+// expand(P): AST -> AST, by hand
+// ------------------------------------------------------------------------------------------
+
+#[derive(Default)]
+struct Frame<'a> {
+    index: Option<i64>,
+    /// macro parameters bound in this scope (kept as names, bound by a generated `.const`)
+    params: HashSet<String>,
+    /// user constants: name -> expanded value
+    consts: HashMap<String, Expr>,
+    macros: HashMap<String, (&'a [String], &'a [Stmt])>,
+    /// labels and generated import aliases
+    names: HashSet<String>,
+    /// `* as ns`: ns -> generated import scope label
+    ns: HashMap<String, String>,
+    import_ids: HashMap<*const Stmt, usize>,
+    if_choice: HashMap<*const Stmt, bool>,
+}
+
+enum Found {
+    Index(i64),
+    Param,
+    Const(Expr),
+    Name,
+    Nothing,
+}
+
+struct Expander<'a> {
+    files: &'a BTreeMap<String, Vec<Stmt>>,
+    frames: Vec<Frame<'a>>,
+    imp_counter: usize,
+    depth: usize,
+}
+
+fn parse_num(t: &str) -> Option<i64> {
+    let l = t.to_ascii_lowercase();
+    if l == "true" {
+        return Some(1);
+    }
+    if l == "false" {
+        return Some(0);
+    }
+    if let Some(h) = t.strip_prefix('$') {
+        return i64::from_str_radix(h, 16).ok();
+    }
+    if let Some(b) = t.strip_prefix('%') {
+        return i64::from_str_radix(b, 2).ok();
+    }
+    t.parse::<i64>().ok()
+}
+
+/// Static evaluation of an (already expanded) expression; identifiers are not static.
+fn static_eval(e: &Expr) -> Result<i64, String> {
+    Ok(match e {
+        Expr::Num(t) => parse_num(t).ok_or_else(|| format!("literal {}", t))?,
+        Expr::Paren(i) => static_eval(i)?,
+        Expr::Not(i) => (static_eval(i)? == 0) as i64,
+        Expr::Neg(i) => static_eval(i)?.wrapping_neg(),
+        Expr::Bin(l, op, r) => {
+            let (a, b) = (static_eval(l)?, static_eval(r)?);
+            match *op {
+                "+" => a.wrapping_add(b),
+                "-" => a.wrapping_sub(b),
+                "*" => a.wrapping_mul(b),
+                "==" => (a == b) as i64,
+                "!=" => (a != b) as i64,
+                ">" => (a > b) as i64,
+                ">=" => (a >= b) as i64,
+                "<" => (a < b) as i64,
+                "<=" => (a <= b) as i64,
+                "&&" => (a != 0 && b != 0) as i64,
+                "||" => (a != 0 || b != 0) as i64,
+                other => return Err(format!("operator {} not evaluated by hand", other)),
+            }
+        }
+        other => return Err(format!("not static: {:?}", other)),
+    })
+}
+
+fn idents_of(e: &Expr, out: &mut Vec<String>) {
+    match e {
+        Expr::Ident { path, .. } => out.extend(path.split('.').map(|s| s.to_string())),
+        Expr::Paren(i) | Expr::Not(i) | Expr::Neg(i) => idents_of(i, out),
+        Expr::Bin(l, _, r) => {
+            idents_of(l, out);
+            idents_of(r, out);
+        }
+        Expr::Call(_, args) => args.iter().for_each(|a| idents_of(a, out)),
+        _ => {}
+    }
+}
+
+impl<'a> Expander<'a> {
+    fn lookup(&self, name: &str) -> Found {
+        for f in self.frames.iter().rev() {
+            if name == "index" {
+                if let Some(i) = f.index {
+                    return Found::Index(i);
+                }
+            }
+            if f.params.contains(name) {
+                return Found::Param;
+            }
+            if let Some(v) = f.consts.get(name) {
+                return Found::Const(v.clone());
+            }
+            if f.names.contains(name) {
+                return Found::Name;
+            }
+        }
+        Found::Nothing
+    }
+
+    fn xexpr(&self, e: &Expr) -> Result<Expr, String> {
+        Ok(match e {
+            Expr::Num(_) | Expr::Pc => e.clone(),
+            Expr::Str(s) => {
+                if s.contains('{') {
+                    return Err("string interpolation".into());
+                }
+                e.clone()
+            }
+            Expr::Ident { modifier, path } => {
+                if path == "-" || path == "+" {
+                    return Ok(e.clone());
+                }
+                let parts: Vec<&str> = path.split('.').collect();
+                if parts.iter().any(|p| *p == "super") {
+                    return Err("super".into());
+                }
+                if parts.len() == 1 {
+                    match self.lookup(path) {
+                        Found::Index(i) => {
+                            if modifier.is_some() {
+                                return Err("modifier on index".into());
+                            }
+                            num(i)
+                        }
+                        Found::Const(v) => {
+                            if modifier.is_some() {
+                                return Err("modifier on constant".into());
+                            }
+                            paren(v)
+                        }
+                        _ => e.clone(),
+                    }
+                } else {
+                    for f in self.frames.iter().rev() {
+                        if let Some(scope) = f.ns.get(parts[0]) {
+                            let mut p = vec![scope.as_str()];
+                            p.extend(&parts[1..]);
+                            return Ok(Expr::Ident {
+                                modifier: *modifier,
+                                path: p.join("."),
+                            });
+                        }
+                        if f.names.contains(parts[0]) || f.consts.contains_key(parts[0]) {
+                            break;
+                        }
+                    }
+                    e.clone()
+                }
+            }
+            Expr::Paren(i) => paren(self.xexpr(i)?),
+            Expr::Not(i) => Expr::Not(Box::new(self.xexpr(i)?)),
+            Expr::Neg(i) => Expr::Neg(Box::new(self.xexpr(i)?)),
+            Expr::Bin(l, op, r) => bin(self.xexpr(l)?, op, self.xexpr(r)?),
+            Expr::Call(name, args) => {
+                if name == "defined" && args.len() == 1 {
+                    match &args[0] {
+                        Expr::Ident { path, .. } if !path.contains('.') => {
+                            num(!matches!(self.lookup(path), Found::Nothing) as i64)
+                        }
+                        _ => return Err("defined() of a non-trivial expression".into()),
+                    }
+                } else {
+                    return Err(format!("call of {}", name));
+                }
+            }
+        })
+    }
+
+    fn top(&mut self) -> &mut Frame<'a> {
+        self.frames.last_mut().unwrap()
+    }
+
+    /// Visible names an import statement introduces at the import site.
+    fn import_visible(&mut self, args: &'a ImportArgs, file: &str, block: Option<&'a Vec<Stmt>>) -> Result<Vec<String>, String> {
+        Ok(match args {
+            ImportArgs::All(Some(_)) => vec![],
+            ImportArgs::All(None) => {
+                let stmts = self.files.get(file).ok_or_else(|| format!("file {} missing", file))?;
+                self.depth += 1;
+                if self.depth > 12 {
+                    return Err("import recursion".into());
+                }
+                self.frames.push(Frame::default());
+                let mut r = Ok(());
+                if let Some(b) = block {
+                    r = self.hoist(b);
+                }
+                if r.is_ok() {
+                    r = self.hoist(stmts);
+                }
+                let f = self.frames.pop().unwrap();
+                self.depth -= 1;
+                r?;
+                let mut v: Vec<String> = f.consts.keys().cloned().collect();
+                v.extend(f.names.iter().cloned());
+                v
+            }
+            ImportArgs::Specific(list) => list
+                .iter()
+                .map(|(n, a)| a.clone().unwrap_or_else(|| n.clone()))
+                .collect(),
+        })
+    }
+
+    /// Registers the definitions a statement list contributes to the current scope.
+    fn hoist(&mut self, list: &'a [Stmt]) -> Result<(), String> {
+        for s in list {
+            match s {
+                Stmt::Const { name, value } => {
+                    let v = self.xexpr(value)?;
+                    self.top().consts.insert(name.clone(), v);
+                }
+                Stmt::MacroDef { name, params, body } => {
+                    self.top().macros.insert(name.clone(), (params.as_slice(), body.as_slice()));
+                }
+                Stmt::Label { name, .. } => {
+                    self.top().names.insert(name.clone());
+                }
+                Stmt::If { cond, then, els } => {
+                    let c = static_eval(&self.xexpr(cond)?)? != 0;
+                    self.top().if_choice.insert(s as *const Stmt, c);
+                    if c {
+                        self.hoist(then)?;
+                    } else if let Some(e) = els {
+                        self.hoist(e)?;
+                    }
+                }
+                Stmt::Import { args, file, block } => {
+                    self.imp_counter += 1;
+                    let n = self.imp_counter;
+                    self.top().import_ids.insert(s as *const Stmt, n);
+                    if let ImportArgs::All(Some(ns)) = args {
+                        self.top().ns.insert(ns.clone(), format!("imp{}", n));
+                    }
+                    let vis = self.import_visible(args, file, block.as_ref())?;
+                    self.top().names.extend(vis);
+                }
+                _ => {}
+            }
+        }
+        Ok(())
+    }
+
+    fn scope(&mut self, frame: Frame<'a>, lists: &[&'a [Stmt]]) -> Result<Vec<Stmt>, String> {
+        self.depth += 1;
+        if self.depth > 12 {
+            return Err("nesting too deep (recursion?)".into());
+        }
+        self.frames.push(frame);
+        let mut r: Result<Vec<Stmt>, String> = Ok(vec![]);
+        for l in lists {
+            if let Err(e) = self.hoist(l) {
+                r = Err(e);
+                break;
+            }
+        }
+        if r.is_ok() {
+            let mut out = vec![];
+            for l in lists {
+                match self.seq(l) {
+                    Ok(v) => out.extend(v),
+                    Err(e) => {
+                        r = Err(e);
+                        break;
+                    }
+                }
+            }
+            if r.is_ok() {
+                r = Ok(out);
+            }
+        }
+        self.frames.pop();
+        self.depth -= 1;
+        r
+    }
+
+    fn find_macro(&self, name: &str) -> Option<(&'a [String], &'a [Stmt])> {
+        for f in self.frames.iter().rev() {
+            if let Some(m) = f.macros.get(name) {
+                return Some(*m);
+            }
+        }
+        None
+    }
+
+    fn seq(&mut self, list: &'a [Stmt]) -> Result<Vec<Stmt>, String> {
+        let mut out = vec![];
+        for s in list {
+            match s {
+                Stmt::Instr { mnemonic, form, operand } => out.push(Stmt::Instr {
+                    mnemonic: mnemonic.clone(),
+                    form: *form,
+                    operand: match operand {
+                        Some(e) => Some(self.xexpr(e)?),
+                        None => None,
+                    },
+                }),
+                Stmt::Data { size, values } => out.push(Stmt::Data {
+                    size,
+                    values: values.iter().map(|v| self.xexpr(v)).collect::<Result<_, _>>()?,
+                }),
+                Stmt::Text { encoding, value } => out.push(Stmt::Text {
+                    encoding: *encoding,
+                    value: self.xexpr(value)?,
+                }),
+                Stmt::PcSet(e) => out.push(Stmt::PcSet(self.xexpr(e)?)),
+                Stmt::Align(e) => out.push(Stmt::Align(self.xexpr(e)?)),
+                Stmt::Label { name, block } => out.push(Stmt::Label {
+                    name: name.clone(),
+                    block: match block {
+                        Some(b) => Some(self.scope(Frame::default(), &[b.as_slice()])?),
+                        None => None,
+                    },
+                }),
+                Stmt::Braces(b) => out.push(Stmt::Braces(self.scope(Frame::default(), &[b.as_slice()])?)),
+                Stmt::Const { name, value } => out.push(Stmt::Const {
+                    name: name.clone(),
+                    value: self.xexpr(value)?,
+                }),
+                Stmt::Loop { count, body } => {
+                    let n = static_eval(&self.xexpr(count)?)?;
+                    if !(0..=64).contains(&n) {
+                        return Err("loop count out of the by-hand range".into());
+                    }
+                    for i in 0..n {
+                        let f = Frame {
+                            index: Some(i),
+                            ..Default::default()
+                        };
+                        out.push(Stmt::Braces(self.scope(f, &[body.as_slice()])?));
+                    }
+                }
+                Stmt::If { then, els, .. } => {
+                    let c = self
+                        .frames
+                        .iter()
+                        .rev()
+                        .find_map(|f| f.if_choice.get(&(s as *const Stmt)).copied())
+                        .ok_or("conditional not seen while collecting definitions")?;
+                    if c {
+                        out.extend(self.seq(then)?);
+                    } else if let Some(e) = els {
+                        out.extend(self.seq(e)?);
+                    }
+                }
+                Stmt::MacroDef { .. } => {}
+                Stmt::MacroCall { name, args } => {
+                    let (params, body) = self.find_macro(name).ok_or_else(|| format!("macro {} not found", name))?;
+                    if params.len() != args.len() {
+                        return Err("macro argument count".into());
+                    }
+                    let args: Vec<Expr> = args.iter().map(|a| self.xexpr(a)).collect::<Result<_, _>>()?;
+                    let mut used = vec![];
+                    args.iter().for_each(|a| idents_of(a, &mut used));
+                    if params.iter().any(|p| used.contains(p)) {
+                        return Err("macro parameter name occurs in an argument".into());
+                    }
+                    let mut f = Frame::default();
+                    f.params.extend(params.iter().cloned());
+                    let mut inner: Vec<Stmt> = params
+                        .iter()
+                        .zip(args.into_iter())
+                        .map(|(p, a)| Stmt::Const {
+                            name: p.clone(),
+                            value: paren(a),
+                        })
+                        .collect();
+                    inner.extend(self.scope(f, &[body])?);
+                    out.push(Stmt::Braces(inner));
+                }
+                Stmt::Import { args, file, block } => {
+                    let n = self
+                        .frames
+                        .iter()
+                        .rev()
+                        .find_map(|f| f.import_ids.get(&(s as *const Stmt)).copied())
+                        .ok_or("import not seen while collecting definitions")?;
+                    let scope_name = format!("imp{}", n);
+                    let stmts = self.files.get(file).ok_or_else(|| format!("file {} missing", file))?;
+                    let mut lists: Vec<&'a [Stmt]> = vec![];
+                    if let Some(b) = block {
+                        lists.push(b.as_slice());
+                    }
+                    lists.push(stmts.as_slice());
+                    let body = self.scope(Frame::default(), &lists)?;
+                    let mut aliases: Vec<(String, String)> = vec![];
+                    match args {
+                        ImportArgs::All(Some(_)) => {}
+                        ImportArgs::All(None) => {
+                            let mut seen = HashSet::new();
+                            for st in &body {
+                                if let Stmt::Label { name, .. } | Stmt::Const { name, .. } = st {
+                                    if seen.insert(name.clone()) {
+                                        aliases.push((name.clone(), name.clone()));
+                                    }
+                                }
+                            }
+                        }
+                        ImportArgs::Specific(list) => {
+                            for (name, alias) in list {
+                                aliases.push((alias.clone().unwrap_or_else(|| name.clone()), name.clone()));
+                            }
+                        }
+                    }
+                    out.push(Stmt::Label {
+                        name: scope_name.clone(),
+                        block: Some(body),
+                    });
+                    for (alias, name) in aliases {
+                        out.push(Stmt::Const {
+                            name: alias,
+                            value: id(&format!("{}.{}", scope_name, name)),
+                        });
+                    }
+                }
+                other => return Err(format!("statement outside the by-hand alphabet: {}", stmt_text(other).lines().next().unwrap_or(""))),
+            }
+        }
+        Ok(out)
+    }
+}
+
+fn expand(prog: &Prog) -> Result<Vec<Stmt>, String> {
+    let mut x = Expander {
+        files: &prog.files,
+        frames: vec![],
+        imp_counter: 0,
+        depth: 0,
+    };
+    x.scope(Frame::default(), &[prog.main.as_slice()])
+}
+
+// ------------------------------------------------------------------------------------------
+// oracle
+// ------------------------------------------------------------------------------------------
+
+#[derive(Clone, Copy, PartialEq, Eq, Hash, Debug, PartialOrd, Ord)]
+enum FailKind {
+    BytesDiffer,
+    PRejected,
+    Panic,
+}
+
+impl FailKind {
+    fn name(&self) -> &'static str {
+        match self {
+            FailKind::BytesDiffer => "bytes-differ",
+            FailKind::PRejected => "P-rejected",
+            FailKind::Panic => "panic",
+        }
+    }
+}
+
+/// Failure class used while reducing: the kind plus the class of the first diagnostic.
+type Class = (FailKind, String);
+
+fn msg_class(m: &str) -> String {
+    let head = m.split(':').next().unwrap_or(m);
+    head.split_whitespace().take(6).collect::<Vec<_>>().join("-")
+}
+
+fn segs_of(b: &Built) -> Vec<(String, usize, Vec<u8>)> {
+    b.segs.iter().map(|s| (s.name.clone(), s.start, s.bytes.clone())).collect()
+}
+
+fn segs_text(segs: &[(String, usize, Vec<u8>)]) -> String {
+    segs.iter()
+        .map(|s| format!("{}@${:04x}: {}", s.0, s.1, hex_bytes(&s.2)))
+        .collect::<Vec<_>>()
+        .join("; ")
+}
+
+struct Texts {
+    main: String,
+    files: Vec<(String, String)>,
+    expanded: Result<String, String>,
+}
+
+fn texts_of(prog: &Prog, expanded: &Result<Vec<Stmt>, String>) -> Texts {
+    Texts {
+        main: program_text(&prog.main),
+        files: prog.files.iter().map(|(n, s)| (n.clone(), program_text(s))).collect(),
+        expanded: expanded.as_ref().map(|e| program_text(e)).map_err(|e| e.clone()),
+    }
+}
+
+fn files_json(t: &Texts) -> Value {
+    let mut m = serde_json::Map::new();
+    m.insert("main.asm".into(), json!(t.main));
+    for (n, s) in &t.files {
+        m.insert(n.clone(), json!(s));
+    }
+    Value::Object(m)
+}
+
+fn assemble_p(t: &Texts) -> Result<Built, mvlib::panics::PanicInfo> {
+    let mut files: Vec<(&str, &str)> = vec![("main.asm", t.main.as_str())];
+    for (n, s) in &t.files {
+        files.push((n.as_str(), s.as_str()));
+    }
+    probe::assemble(&files, &Opts::default())
+}
+
+/// Result of assembling a hand expansion (many nests share one expansion text: cached).
+struct ERes {
+    ok: bool,
+    panicked: bool,
+    segs: Vec<(String, usize, Vec<u8>)>,
+    diags: Vec<String>,
+    cause: String,
+}
+
+const SHARDS: usize = 64;
+
+struct Shared {
+    ecache: Vec<Mutex<HashMap<(u64, u64), Arc<ERes>>>>,
+    failing: Mutex<HashMap<Nest, Class>>,
+    images: Mutex<HashSet<u64>>,
+    exp_rejected_examples: Mutex<BTreeMap<String, Vec<Value>>>,
+    both_rejected_examples: Mutex<BTreeMap<String, Vec<Value>>>,
+    ambiguous_examples: Mutex<Vec<Value>>,
+}
+
+impl Shared {
+    fn expansion(&self, etext: &str, ctx: Option<&Ctx>) -> Arc<ERes> {
+        use std::hash::{Hash, Hasher};
+        let mut h = std::collections::hash_map::DefaultHasher::new();
+        etext.hash(&mut h);
+        let key = (fnv_str(etext), h.finish());
+        let shard = &self.ecache[(key.0 % SHARDS as u64) as usize];
+        if let Some(r) = shard.lock().unwrap().get(&key) {
+            if let Some(c) = ctx {
+                c.count("expansion_assembly_cache_hits");
+            }
+            return r.clone();
+        }
+        if let Some(c) = ctx {
+            c.count("distinct_expansions_assembled");
+        }
+        let r = match probe::asm(etext) {
+            Ok(b) => ERes {
+                ok: b.ok(),
+                panicked: false,
+                segs: segs_of(&b),
+                diags: b.all_diags().iter().map(|d| d.short()).collect(),
+                cause: msg_class(&b.all_diags().first().map(|d| d.message.clone()).unwrap_or_else(|| format!("{:?}", b.stop))),
+            },
+            Err(p) => ERes {
+                ok: false,
+                panicked: true,
+                segs: vec![],
+                diags: vec![format!("panic {} at {}", p.message, p.site)],
+                cause: "panic".into(),
+            },
+        };
+        let r = Arc::new(r);
+        shard.lock().unwrap().insert(key, r.clone());
+        r
+    }
+}
+
+/// Verdict of one pair; `detail` = (what, case) for failing pairs when `want_detail`.
+struct Verdict {
+    fail: Option<Class>,
+    detail: Option<(String, Value)>,
+}
+
+fn run_pair(ctx: &Ctx, isa: &Isa, shared: &Shared, nest: &Nest, counting: bool, want_detail: bool) -> Verdict {
+    let t0 = std::time::Instant::now();
+    let prog = build(nest);
+    let expanded = expand(&prog);
+    let t = texts_of(&prog, &expanded);
+    let depth = nest.levels.len();
+    if counting {
+        ctx.count_n("cpu_us_build_expand_render", t0.elapsed().as_micros() as u64);
+    }
+    let count = |k: &str| {
+        if counting {
+            ctx.count(k);
+        }
+    };
+    if counting {
+        ctx.eval(|| json!({"nest": nest.describe(), "files": files_json(&t), "expanded": t.expanded.clone().unwrap_or_else(|e| format!("<{}>", e))}));
+    }
+    let case = |class: &str| {
+        json!({"kind": "c07", "nest": nest.describe(), "class": class, "files": files_json(&t),
+               "expanded": t.expanded.clone().unwrap_or_else(|e| format!("<{}>", e))})
+    };
+    let none = Verdict { fail: None, detail: None };
+    let etext = match &t.expanded {
+        Ok(e) => e.clone(),
+        Err(why) => {
+            count(&format!("unexpandable:{}", msg_class(why)));
+            return none;
+        }
+    };
+    let t1 = std::time::Instant::now();
+    let p = assemble_p(&t);
+    if counting {
+        ctx.count_n("cpu_us_assemble_P", t1.elapsed().as_micros() as u64);
+    }
+    let p = match p {
+        Ok(b) => b,
+        Err(pi) => {
+            count("P_panicked");
+            let class = (FailKind::Panic, pi.site.clone());
+            let detail = if want_detail {
+                Some((
+                    format!("assembling P panics: {} at {} ; P = {:?}", pi.message, pi.site, t.main),
+                    case("panic"),
+                ))
+            } else {
+                None
+            };
+            return Verdict { fail: Some(class), detail };
+        }
+    };
+    let t2 = std::time::Instant::now();
+    let e = shared.expansion(&etext, counting.then_some(ctx));
+    if counting {
+        ctx.count_n("cpu_us_assemble_expansion", t2.elapsed().as_micros() as u64);
+    }
+    if e.panicked {
+        count("expansion_panicked");
+        return none;
+    }
+    match (p.ok(), e.ok) {
+        (false, false) => {
+            count("trivial_both_rejected");
+            if counting {
+                let cause = msg_class(&p.all_diags().first().map(|d| d.message.clone()).unwrap_or_else(|| format!("{:?}", p.stop)));
+                ctx.count(&format!("both_rejected:{}", cause));
+                let mut ex = shared.both_rejected_examples.lock().unwrap();
+                let v = ex.entry(cause).or_default();
+                if v.len() < 2 {
+                    v.push(json!({"nest": nest.describe(), "files": files_json(&t), "expanded": etext,
+                                  "diagnostics_P": p.all_diags().iter().map(|d| d.short()).collect::<Vec<_>>(),
+                                  "diagnostics_expansion": e.diags}));
+                }
+            }
+            none
+        }
+        (true, false) => {
+            let cause = e.cause.clone();
+            count("expansion_rejected_P_assembles");
+            count(&format!("expansion_rejected:{}", cause));
+            if counting {
+                let mut ex = shared.exp_rejected_examples.lock().unwrap();
+                let v = ex.entry(cause).or_default();
+                if v.len() < 2 {
+                    v.push(json!({"nest": nest.describe(), "files": files_json(&t), "expanded": etext,
+                                  "diagnostics": e.diags}));
+                }
+            }
+            none
+        }
+        (false, true) => {
+            count("P_rejected_expansion_assembles");
+            let first = p.all_diags().first().map(|d| d.message.clone()).unwrap_or_else(|| format!("{:?}", p.stop));
+            let class = (FailKind::PRejected, msg_class(&first));
+            let detail = if want_detail {
+                Some((
+                    format!(
+                        "P is rejected ({}; stop={:?}) but its hand expansion assembles to [{}]; P = {:?}{} ; expand(P) = {:?}",
+                        p.all_diags().iter().map(|d| d.short()).collect::<Vec<_>>().join(" | "),
+                        p.stop,
+                        segs_text(&e.segs),
+                        t.main,
+                        t.files.iter().map(|(n, s)| format!(" ; {} = {:?}", n, s)).collect::<String>(),
+                        etext
+                    ),
+                    case("P-rejected"),
+                ))
+            } else {
+                None
+            };
+            Verdict { fail: Some(class), detail }
+        }
+        (true, true) => {
+            count("both_assembled");
+            count(&format!("both_assembled_depth{}", depth));
+            if counting {
+                ctx.nontrivial(fnv_str(&format!("{}\u{0}{:?}", t.main, t.files)));
+                shared.images.lock().unwrap().insert(mvlib::fnv(&p.bytes()));
+                for l in &nest.levels {
+                    ctx.count(&format!("nontrivial_with_{}", l.kind_name()));
+                }
+                ctx.count(&format!("nontrivial_leaf_{}", nest.leaf.name()));
+                if p.passes > 3 {
+                    ctx.count("P_needed_more_than_3_passes");
+                }
+            }
+            if segs_of(&p) == e.segs {
+                count("equal_bytes");
+                return none;
+            }
+            // refinement: two different *valid* fixed points are "ambiguous", not a violation
+            let has_import = !prog.files.is_empty();
+            if !has_import {
+                let cp = certify(isa, &p, &prog.main);
+                let exp_prog = expanded.as_ref().unwrap();
+                let valid = |c: &crate::cert::Cert| c.problems.is_empty() && c.unsupported.is_empty();
+                let e_valid = match probe::asm(&etext) {
+                    Ok(eb) => valid(&certify(isa, &eb, exp_prog)),
+                    Err(_) => false,
+                };
+                if valid(&cp) && e_valid {
+                    count("ambiguous_two_valid_fixed_points");
+                    if counting {
+                        let mut a = shared.ambiguous_examples.lock().unwrap();
+                        if a.len() < 3 {
+                            a.push(case("ambiguous"));
+                        }
+                    }
+                    return none;
+                }
+                count("bytes_differ_certificate_checked");
+            } else {
+                count("bytes_differ_certificate_skipped_import");
+            }
+            count("bytes_differ");
+            let class = (FailKind::BytesDiffer, String::new());
+            let detail = if want_detail {
+                Some((
+                    format!(
+                        "P assembles to [{}] but its hand expansion to [{}]; P = {:?}{} ; expand(P) = {:?}",
+                        segs_text(&segs_of(&p)),
+                        segs_text(&e.segs),
+                        t.main,
+                        t.files.iter().map(|(n, s)| format!(" ; {} = {:?}", n, s)).collect::<String>(),
+                        etext
+                    ),
+                    case("bytes-differ"),
+                ))
+            } else {
+                None
+            };
+            Verdict { fail: Some(class), detail }
+        }
+    }
+}
+
+// ------------------------------------------------------------------------------------------
+// reduction of failing nests against the table of failing nests
+// ------------------------------------------------------------------------------------------
+
+fn reduce(start: &Nest, class: &Class, table: &HashMap<Nest, Class>, levels: &[Level]) -> Nest {
+    let mut n = start.clone();
+    let same = |c: &Nest| c.valid() && table.get(c) == Some(class);
+    'outer: loop {
+        // drop a level
+        for i in 0..n.levels.len() {
+            let mut c = n.clone();
+            c.levels.remove(i);
+            if !c.levels.is_empty() && same(&c) {
+                n = c;
+                continue 'outer;
+            }
+        }
+        // simpler leaf
+        for l in LEAVES.iter() {
+            if *l == n.leaf {
+                break;
+            }
+            let mut c = n.clone();
+            c.leaf = *l;
+            if same(&c) {
+                n = c;
+                continue 'outer;
+            }
+        }
+        // simpler variant of a level
+        for i in 0..n.levels.len() {
+            for v in levels.iter().filter(|v| v.kind() == n.levels[i].kind()) {
+                if *v == n.levels[i] {
+                    break;
+                }
+                let mut c = n.clone();
+                c.levels[i] = *v;
+                if same(&c) {
+                    n = c;
+                    continue 'outer;
+                }
+            }
+        }
+        return n;
+    }
+}
+
+// ------------------------------------------------------------------------------------------
+// enumeration
+// ------------------------------------------------------------------------------------------
+
+fn nests_with_prefix(levels: &[Level], prefix: &[Level], remaining: usize, out: &mut Vec<Nest>) {
+    if remaining == 0 {
+        if !levels_valid(prefix) {
+            return;
+        }
+        for leaf in LEAVES.iter() {
+            if leaf_valid(prefix, *leaf) {
+                out.push(Nest {
+                    levels: prefix.to_vec(),
+                    leaf: *leaf,
+                });
+            }
+        }
+        return;
+    }
+    for l in levels {
+        let mut p = prefix.to_vec();
+        p.push(*l);
+        if !levels_valid(&p) {
+            continue;
+        }
+        nests_with_prefix(levels, &p, remaining - 1, out);
+    }
+}
+
+fn print_built(title: &str, b: &Result<Built, mvlib::panics::PanicInfo>) {
+    match b {
+        Ok(b) => {
+            println!(
+                "{}: ok={} passes={} stop={:?} diagnostics={:?}",
+                title,
+                b.ok(),
+                b.passes,
+                b.stop,
+                b.all_diags().iter().map(|d| d.short()).collect::<Vec<_>>()
+            );
+            for s in &b.segs {
+                println!("  segment {} ${:04x}..${:04x}: {}", s.name, s.start, s.end, hex_bytes(&s.bytes));
+            }
+        }
+        Err(p) => println!("{}: PANIC {} at {}", title, p.message, p.site),
+    }
+}
+
+pub fn run(ctx: &Ctx, replay: Option<&Value>) -> i32 {
+    let isa = Isa::new();
+    if let Some(case) = replay {
+        let mut files: Vec<(String, String)> = vec![];
+        if let Some(m) = case["files"].as_object() {
+            if let Some(main) = m.get("main.asm").and_then(|v| v.as_str()) {
+                files.push(("main.asm".into(), main.to_string()));
+            }
+            for (k, v) in m {
+                if k != "main.asm" {
+                    files.push((k.clone(), v.as_str().unwrap_or("").to_string()));
+                }
+            }
+        }
+        let expanded = case["expanded"].as_str().unwrap_or("").to_string();
+        println!("replaying nest {}", case["nest"].as_str().unwrap_or("?"));
+        for (n, t) in &files {
+            println!("--- {}\n{}", n, t);
+        }
+        println!("--- hand expansion\n{}\n---", expanded);
+        let refs: Vec<(&str, &str)> = files.iter().map(|(n, t)| (n.as_str(), t.as_str())).collect();
+        let p = probe::assemble(&refs, &Opts::default());
+        let e = probe::asm(&expanded);
+        print_built("P", &p);
+        print_built("expand(P)", &e);
+        let verdict = match (&p, &e) {
+            (Err(_), _) => "P panics",
+            (Ok(p), Ok(e)) if p.ok() && e.ok() && segs_of(p) == segs_of(e) => "equal: property holds on this case",
+            (Ok(p), Ok(e)) if p.ok() && e.ok() => "BYTES DIFFER",
+            (Ok(p), Ok(e)) if !p.ok() && e.ok() => "P REJECTED although its expansion assembles",
+            (Ok(p), Ok(e)) if p.ok() && !e.ok() => "only the expansion is rejected (no verdict)",
+            _ => "both rejected (trivial)",
+        };
+        println!("verdict: {}", verdict);
+        return 0;
+    }
+
+    let max_depth = if ctx.tier.is_thorough() { 3 } else { 2 };
+    let levels = all_levels();
+    ctx.set("level_variants", json!(levels.len()));
+    ctx.set("level_variant_names", json!(levels.iter().map(|l| l.name()).collect::<Vec<_>>()));
+    ctx.set("leaf_kinds", json!(LEAVES.iter().map(|l| l.name()).collect::<Vec<_>>()));
+    ctx.set("max_depth", json!(max_depth));
+    let shared = Shared {
+        ecache: (0..SHARDS).map(|_| Mutex::new(HashMap::new())).collect(),
+        failing: Mutex::new(HashMap::new()),
+        images: Mutex::new(HashSet::new()),
+        exp_rejected_examples: Mutex::new(BTreeMap::new()),
+        both_rejected_examples: Mutex::new(BTreeMap::new()),
+        ambiguous_examples: Mutex::new(vec![]),
+    };
+    let mut per_depth = vec![];
+    let full_depth3 = std::env::var("VERIF_C07_FULL").is_ok();
+    let cut = std::sync::atomic::AtomicU64::new(0);
+    for depth in 1..=max_depth {
+        // parallel over the outermost level; nests below it are generated per task
+        let before = ctx.evals();
+        let firsts: Vec<Vec<Level>> = if depth == 1 {
+            levels.iter().map(|l| vec![*l]).collect()
+        } else {
+            let mut v = vec![];
+            for a in &levels {
+                for b in &levels {
+                    if levels_valid(&[*a, *b]) {
+                        v.push(vec![*a, *b]);
+                    }
+                }
+            }
+            v
+        };
+        firsts.par_iter().for_each(|prefix| {
+            let mut nests = vec![];
+            nests_with_prefix(&levels, prefix, depth - prefix.len(), &mut nests);
+            for n in nests {
+                if depth >= 3 && !full_depth3 && !n.levels.iter().any(is_base) {
+                    cut.fetch_add(1, std::sync::atomic::Ordering::Relaxed);
+                    continue;
+                }
+                let v = run_pair(ctx, &isa, &shared, &n, true, false);
+                if let Some(class) = v.fail {
+                    shared.failing.lock().unwrap().insert(n, class);
+                }
+            }
+        });
+        per_depth.push(json!({"depth": depth, "pairs": ctx.evals() - before}));
+    }
+    ctx.set("pairs_per_depth", json!(per_depth));
+    let cut = cut.load(std::sync::atomic::Ordering::Relaxed);
+    if cut > 0 {
+        ctx.cap(format!(
+            "depth 3: only nests in which at least one of the three levels is the representative variant of its kind (loop2, if(1), macro(1p,1x,top), const(2,before-use), braces, import(*)) were run; {} depth-3 nests made of three non-representative variants were cut (set VERIF_C07_FULL=1 to run them, about 4x the time)",
+            cut
+        ));
+        ctx.set("depth3_nests_cut", json!(cut));
+    }
+    ctx.set("distinct_images_of_P", json!(shared.images.lock().unwrap().len()));
+    ctx.set(
+        "expansion_rejected_examples",
+        json!(shared.exp_rejected_examples.lock().unwrap().clone()),
+    );
+    ctx.set(
+        "both_rejected_examples",
+        json!(shared.both_rejected_examples.lock().unwrap().clone()),
+    );
+    ctx.set(
+        "ambiguous_pairs",
+        json!(ctx.counter("ambiguous_two_valid_fixed_points")),
+    );
+    ctx.set(
+        "expansion_rejected_while_P_assembles",
+        json!(ctx.counter("expansion_rejected_P_assembles")),
+    );
+    if ctx.counter("ambiguous_two_valid_fixed_points") > 0 {
+        ctx.note("pairs with different bytes in which both results pass the fixed-point certificate were counted as ambiguous, not judged: either the program has several fixed points or the hand expansion disagrees with the checker's model - inspect ambiguous_examples");
+    }
+    ctx.set("ambiguous_examples", json!(shared.ambiguous_examples.lock().unwrap().clone()));
+
+    // reduce every failing nest, group by the signature of the reduced nest
+    let table = shared.failing.lock().unwrap().clone();
+    ctx.set("failing_pairs", json!(table.len()));
+    let reduced: Vec<(Nest, Class, Nest)> = table
+        .par_iter()
+        .map(|(n, c)| (n.clone(), c.clone(), reduce(n, c, &table, &levels)))
+        .collect();
+    let mut groups: BTreeMap<String, (Nest, u64)> = BTreeMap::new();
+    for (_, class, r) in &reduced {
+        let sig = format!("expand:{}:{}:{}", r.sig_path(), r.leaf.name(), class.0.name());
+        groups.entry(sig).or_insert_with(|| (r.clone(), 0)).1 += 1;
+    }
+    for (sig, (rep, n)) in &groups {
+        let v = run_pair(ctx, &isa, &shared, rep, false, true);
+        let (what, case) = match v.detail {
+            Some(d) => d,
+            None => (
+                format!("representative {} did not fail when re-run (non-determinism?)", rep.describe()),
+                json!({"kind": "c07", "nest": rep.describe()}),
+            ),
+        };
+        let f = Finding::new(sig.clone(), what, case);
+        for _ in 0..*n {
+            ctx.finding(f.clone());
+        }
+    }
+
+    ctx.finish(
+        "exploration",
+        "every construct nest of depth <= d (quick 2, thorough 3) over 59 level variants (.loop 0..3; .if with 5 statically decidable conditions x then / then+else / child in else; macro with 0-2 parameters x 1-2 invocations x defined at top / locally / after use; .const literal or expression x before / after use; {} and l: {}; .import * / name / name as / * as ns / two names / same file twice (aliases, namespaces) / name of a block label x with and without parameter block, the nested construct living in the imported file) x leaf body (nop, lda #V, .byte V + 1 for V in index / macro parameter / constant where one is in scope, jmp outer, jmp fwd, inner label + branch in own braces, bne - in own braces). P and its by-hand expansion (AST -> AST, written here) are both assembled by the real code and their segments compared. non-trivial = distinct P containing at least one construct where both P and expand(P) assemble",
+        true,
+        &[
+            "depth bound d (2 quick / 3 thorough); one nest per program, one leaf per nest",
+            "kept out because the statement does not fix their by-hand meaning: labels (also labelled braces) and -/+ references directly in a loop body, macros defined inside macro bodies, recursion, leaves whose value identifier has no binder in the nest",
+            "macro expansion follows the statement (fresh scope, parameters bound by .const); parameter names never occur in arguments",
+            "import expansion: labelled scope at the import site + .const alias = scope.name; `* as ns` is expanded by rewriting ns.x to scope.x",
+            "expand(P) rejected while P assembles is counted, not judged (the hand expansion may be stricter)",
+            "differing bytes are excused only if both results pass the fixed-point certificate check (not available for programs with imports)",
+        ],
+    )
 }
